@@ -23,7 +23,10 @@ OWN = b"SCP"
 CTLWS = [0x09, 0x0A, 0x0B, 0x0C, 0x0D, 0x1C, 0x1D, 0x1E, 0x1F]
 PYWS = bytes([0x20] + CTLWS)  # what str.strip() removes from an ASCII string
 DOCUMENTED = {"calling": (1, 1, 3), "called": (1, 1, 7), "identity": (2, 2, 1), "limit": (2, 3, 2)}
-HANDLERS = ["absent", "true", "false", "raise", "resp"]
+# verdicts a handler may give: the literals, a raise, and falsy / truthy values that are not the literals (what
+# `return PATTERN.fullmatch(name), None` or `return USERS.get(name), None` produce): only a positive verdict admits
+HANDLERS = ["absent", "true", "false", "raise", "resp", "falsy-none", "falsy-zero", "falsy-empty", "truthy-object"]
+FALSY = {"falsy-none": None, "falsy-zero": 0, "falsy-empty": ""}
 
 
 # --------------------------------------------------------------------------
@@ -147,6 +150,10 @@ class Worker:
         self.fired_id.append(event.user_id_type)
         if self.mode == "true":
             return True, None
+        if self.mode in FALSY:
+            return FALSY[self.mode], None
+        if self.mode == "truthy-object":
+            return ["match"], None
         if self.mode == "false":
             return False, None
         if self.mode == "resp":
@@ -246,7 +253,7 @@ def failed_checks(case):
         f.add("calling")
     if rcalled and sp(called) != sp(own):
         f.add("called")
-    if ident and ident[2] in ("false", "raise"):
+    if ident and (ident[2] in ("false", "raise") or ident[2] in FALSY):
         f.add("identity")
     if k + 1 > m:
         f.add("limit")
@@ -306,6 +313,10 @@ def lean_req(case):
             "true": ["returns", True, False],
             "false": ["returns", False, False],
             "resp": ["returns", True, True],
+            "falsy-none": ["returns", False, False],
+            "falsy-zero": ["returns", False, False],
+            "falsy-empty": ["returns", False, False],
+            "truthy-object": ["returns", True, False],
         }[ident[2]]
         i = [ident[0], bool(ident[1]), h]
     return ["assoc.policy", list(req), bool(rcalled), own, m, calling, called, i, k + 1]
